@@ -350,6 +350,13 @@ fn programs(family: &str) -> Vec<(String, Outcome)> {
             p(&st("    n := 1\n    x := n.f\n"), Outcome::Reject);
             p(&st("    n := 1\n    x := n[0]\n"), Outcome::Reject);
             p(&st("    t := (1, 2)\n    x := t[5]\n"), Outcome::Reject);
+            // a literal that contradicts the declared primitive type
+            p(&st("    x: int = 1\n    y: str = \"a\"\n    z: float = 1.5\n    w: bool = true\n"), Outcome::Accept);
+            p(&st("    x: int = \"a\"\n"), Outcome::Reject);
+            p(&st("    x: float = 1\n"), Outcome::Reject);
+            p(&st("    x: int = 1.5\n"), Outcome::Reject);
+            p(&st("    x: bool = 0\n"), Outcome::Reject);
+            p(&st("    x: str : 1\n"), Outcome::Reject);
         }
         "case" => {
             let arms = |a: &str| format!("{}start :: fn do\n    a := A.X 1\n    case a do\n{}    end\nend\n", enum_a, a);
